@@ -5,7 +5,7 @@ BEYOND the bound of the symbolic run, executed with the numeric backend on seede
   C05: Hamiltonian MPO vs dense Hamiltonian at N = 8, 9, 10 (dim 2) and N = 6, 7 (dim 3), random interaction patterns,
        Rydberg and XY
   C12: emu-sv state constructors from amplitudes at N = 5 .. 8, state algebra at N = 4 .. 6, dense operator constructors
-       from the abstract representation at N = 4, 5
+       from the abstract representation at N = 4, 5, sparse operator constructors and sparse algebra at N = 5 .. 7
   C06: emu-sv Hamiltonian action at N = 5 .. 9 (random zero/non-zero phase patterns, all pairs / chain / random subset
        of interactions), Lindbladian action at N = 3, 4 with 0-2 jump operators
 
@@ -32,6 +32,16 @@ class RandEnv(dict):
     def __missing__(self, name):
         r = random.Random(f"{self.seed}:{name}")
         v = r.uniform(0.3, 2.5) * r.choice([-1.0, 1.0])
+        self[name] = v
+        return v
+
+
+class WideEnv(RandEnv):
+    """values spread over eight orders of magnitude (van der Waals tails, weak drives next to strong ones)"""
+
+    def __missing__(self, name):
+        r = random.Random(f"{self.seed}:{name}")
+        v = 10.0 ** r.uniform(-7.0, 1.0) * r.choice([-1.0, 1.0])
         self[name] = v
         return v
 
@@ -86,6 +96,22 @@ def plan(prop, rnd):
                 term2 = [(NS[(ni + 2) % len(NS)], [N - 1])]
                 out.append(dict(kind="dense_op", N=N, basis=["r", "g"], terms=[term1]))
                 out.append(dict(kind="dense_op", N=N, basis=["g", "r"], terms=[term1, term2], target_sets=bool((pi + ni) % 2)))
+        S = c12.SPARSE_NAME_SETS
+        for N in (5, 6, 7):
+            parts = c12._partitions_into_ops(N)
+            for pi in rnd.sample(range(len(parts)), min(3, len(parts))):
+                part = parts[pi]
+                ni = rnd.randrange(len(S))
+                term1 = [(S[ni], tg) if k == 0 else (S[(ni + 6) % len(S)], tg) for k, tg in enumerate(part)]
+                term2 = [(S[(ni + 2) % len(S)], [N - 1])]
+                term3 = [(S[(ni + 7) % len(S)], tg) for tg in part]
+                out.append(dict(kind="sparse_op", N=N, basis=["r", "g"], terms=[term1], target_sets=bool(pi % 2)))
+                out.append(dict(kind="sparse_op", N=N, basis=["g", "r"], terms=[term1, term2, term3]))
+            # single-qubit factors on far-apart atoms (the other atoms carry the identity)
+            out.append(dict(kind="sparse_op", N=N, basis=["r", "g"],
+                            terms=[[(S[1 % len(S)], [0]), (S[3 % len(S)], [N - 1])], [(S[2 % len(S)], [N // 2])]]))
+            for pattern in ("scattered", "edge rows"):
+                out.append(dict(kind="sparse_alg", N=N, pattern=pattern))
         return c12, out
     raise SystemExit(f"no beyond-the-bound plan for {prop}")
 
@@ -110,10 +136,12 @@ def main():
             return 3
     n_entries = 0
     for i, case in enumerate(cases):
-        r = execute(NumBackend(RandEnv(f"{seed}/{i}")), dict(case), mod.KINDS[case["kind"]])
+        # every third case of the Hamiltonian properties on values spread over eight orders of magnitude
+        env = WideEnv(f"{seed}/{i}") if (prop in ("C05", "C06") and i % 3 == 2) else RandEnv(f"{seed}/{i}")
+        r = execute(NumBackend(env), dict(case), mod.KINDS[case["kind"]])
         if r["status"] == "mismatch":
             m = r["mismatches"][0]
-            print(f"case: {json.dumps(case)}")
+            print(f"case: {json.dumps(case)}" + (" [values spread over 1e-7 .. 10]" if isinstance(env, WideEnv) else ""))
             print(f"  {m.get('check')} index {m.get('index')}: real code {m.get('got')}  specification {m.get('want')}")
             print("REPRODUCED: the real code disagrees with the dense specification at a size beyond the symbolic bound")
             return 1
